@@ -506,3 +506,17 @@ Proof.
   replace (length A' + 1)%nat with (S (length A')) by lia.
   rewrite <- app_assoc. cbn [app]. rewrite app_nth2 by lia. rewrite Nat.sub_diag. reflexivity.
 Qed.
+
+(* ---------- K-C26-dups is not one unlucky input ---------- *)
+(* whatever the key: three entries of one key written newest-first (payloads increasing with time, as
+   node/blob ids do) — delete's binary search never finds the oldest pair *)
+Theorem dups_delete_misses_oldest (k : key) (v1 v2 v3 : N) : v1 < v2 -> v1 < v3 ->
+  In (k, v1) [(k, v3); (k, v2); (k, v1)] /\
+  fst (bsearch (map (fun c : cell => cell_cmp c k v1) [(k, v3); (k, v2); (k, v1)])) = false.
+Proof.
+  intros H2 H3. split; [right; right; left; reflexivity|].
+  cbn [map]. unfold cell_cmp. cbn [fst snd]. rewrite lex_cmp_refl.
+  replace (v3 ?= v1) with Gt by (symmetry; apply N.compare_gt_iff; exact H3).
+  replace (v2 ?= v1) with Gt by (symmetry; apply N.compare_gt_iff; exact H2).
+  rewrite N.compare_refl. reflexivity.
+Qed.
